@@ -528,6 +528,40 @@ class SimLock:
         self.release()
 
 
+class HybridLock(SimLock):
+    """What the library gets from threading.Lock(): inside a simulation it is a SimLock (a scheduling point, ownership by actor),
+    outside one (import time, real-socket runs with real threads) it is the real lock.  A lock created at import time - a module or
+    class attribute - is thus still under the scheduler's control when a simulation uses it later; ownership left over from an
+    earlier (aborted) simulation is forgotten."""
+
+    def __init__(self, real_factory):
+        SimLock.__init__(self)
+        self._real = real_factory()
+        self._owner_sched = None
+
+    def acquire(self, blocking=True, timeout=-1):
+        s = current_sched()
+        if s is None:
+            return self._real.acquire(blocking, timeout)
+        if self._owner is not None and self._owner_sched is not s:
+            self._owner = None
+        ok = SimLock.acquire(self, blocking, timeout)
+        if ok:
+            self._owner_sched = s
+        return ok
+
+    def release(self):
+        s = current_sched()
+        if s is None and self._owner is None:
+            return self._real.release()
+        return SimLock.release(self)
+
+    def locked(self):
+        if current_sched() is None:
+            return self._real.locked()
+        return self._owner is not None and self._owner_sched is current_sched()
+
+
 class SimEvent:
     def __init__(self):
         self._flag = False
